@@ -11,6 +11,15 @@ ASPECTS = ("flow", "tags", "err")
 CHECKS = ("sem", "md")
 SIGS = ("metadata", "metadata-shape")
 
+CORPUS_FAULT = [
+    # a consumer raises in the middle of a flush; the next flush must carry exactly the metadata of what it emits
+    {"mode": "sync", "nodes": [{"kind": "source", "ups": []}, {"kind": "collect", "ups": [0]}, {"kind": "map", "f": ["len"], "ups": [1]},
+                               {"kind": "sink", "mode": "sync", "f": ["failIf", 3, 2], "ups": [2]}],
+     "ops": [{"op": "emit", "node": 0, "val": 0, "md": [{"tag": 1, "ref": None}]}, {"op": "emit", "node": 0, "val": 1, "md": [{"tag": 2, "ref": None}]},
+             {"op": "flush", "node": 1}, {"op": "emit", "node": 0, "val": 2, "md": [{"tag": 3, "ref": None}]}, {"op": "flush", "node": 1},
+             {"op": "emit", "node": 0, "val": 3, "md": [{"tag": 4, "ref": None}]}, {"op": "flush", "node": 1}]},
+]
+
 CORPUS = [
     {"mode": "sync", "nodes": [{"kind": "source", "ups": []}, {"kind": "partition_unique", "ups": [0], "n": 2, "key": ["modk", 3], "keep": "last"},
                                {"kind": "sink", "mode": "sync", "f": ["id"], "ups": [1]}],
@@ -25,6 +34,9 @@ def run(ctx):
     ctx.audit()
     n = 300 if not ctx.thorough() else 10000
     graphcheck.run_family(ctx, n, ASPECTS, CHECKS, SIGS, corpus=CORPUS)
+    # metadata must stay attached to the right data after a fault as well (a consumer raising in the middle of a
+    # flush / window emission): compared against the model on every later event (the oracle stops at the fault)
+    graphcheck.run_family(ctx, n // 3, ASPECTS, CHECKS, SIGS, fail_prob=0.25, corpus=CORPUS_FAULT)
     ctx.coverage["rule"] = ("as C01; every emission carries 0, 1 or 2 tagged metadata dictionaries (70% of emissions carry some). "
                             "Non-trivial: pipeline has a combining/batching/dropping node and >= 8 flow events.")
     ctx.assumptions += ["metadata dictionaries are identified by an integer tag; reference counters are a logging RefCounter subclass"]
